@@ -429,7 +429,17 @@ def global_state_uses(P, scope_fns, holders):
             keyed = [y for y in f.walk() if y.get("k") == "MethodCall" and y.get("method") in ("entry", "get", "insert", "contains_key", "contains", "get_mut", "get_or_insert_with")
                      and ("def", h) in pv.atoms(y["recv"]) and y["args"]]
             if not keyed:
-                out.append((f, h, None, None))
+                # unkeyed memo (OnceCell::get_or_init, Option::get_or_insert_with, Cell::set ...): the stored value must not depend
+                # on any parameter, since it is computed once and returned for every later argument
+                memo = [y for y in f.walk() if y.get("k") == "MethodCall" and y.get("method") in ("get_or_init", "get_or_try_init", "get_or_insert_with", "get_or_insert", "set", "replace", "call_once", "insert")
+                        and ("def", h) in pv.atoms(y["recv"]) and y["args"]]
+                if memo:
+                    dep = set()
+                    for y in memo:
+                        dep |= {p[1] for p in pv.atoms(y["args"][-1]) if p[0] == "param"}
+                    out.append((f, h, sorted(dep), []))
+                else:
+                    out.append((f, h, None, None))
                 continue
             key_params = set()
             for y in keyed:
